@@ -93,7 +93,7 @@ def coq_closure(vfile):
 def count_obligations(files):
     n = 0; names = []
     for f in files:
-        txt = open(os.path.join(COQ, f)).read()
+        txt = re.sub(r'\(\*.*?\*\)', '', open(os.path.join(COQ, f)).read(), flags=re.S)
         for m in re.finditer(r'^\s*(?:Local\s+|Global\s+)?(Theorem|Lemma|Corollary|Fact|Example|Proposition)\s+([A-Za-z_][\w\']*)', txt, re.M):
             n += 1; names.append(f + ':' + m.group(2))
     return n, names
@@ -236,7 +236,7 @@ class Check:
         bad = scan_forbidden(closure)
         if bad:
             self.broken_obligation('forbidden-construct', '; '.join(bad[:5])); ok = False
-        theorems = re.findall(r'^\s*Theorem\s+([A-Za-z_][\w\']*)', open(os.path.join(COQ, prop_file)).read(), re.M)
+        theorems = re.findall(r'^\s*Theorem\s+([A-Za-z_][\w\']*)', re.sub(r'\(\*.*?\*\)', '', open(os.path.join(COQ, prop_file)).read(), flags=re.S), re.M)
         tb = ['Coq 8.16.1 kernel (coqc); vm_compute for finite decisions; no native_compute']
         if ok and theorems:
             mod = 'NB.' + prop_file[:-2].replace('/', '.')
